@@ -23,7 +23,7 @@ type Prop struct {
 	Assumptions []string `json:"assumptions"`
 	FaultKinds  []string `json:"fault_kinds"`
 	// QuickRuns: default number of runs per worker in the quick tier
-	QuickRuns int `json:"quick_runs_per_worker"`
+	QuickRuns int  `json:"quick_runs_per_worker"`
 	Race      bool `json:"race"` // needs the -race build
 }
 
@@ -39,18 +39,18 @@ type Run struct {
 	S       *Sched
 	Verbose bool
 
-	Notes      []string // scenario description + event notes (verbose only)
-	V          *Violation
-	Nontrivial bool
-	Probes     map[string]int
-	Faults     map[string]int
-	Sig        uint64 // extra signature material for distinctness
-	VirtNs     int64
-	Steps      int
-	Switches   int
-	Truncated  bool
-	Leaked     int
-	Hash       uint64
+	Notes                            []string // scenario description + event notes (verbose only)
+	V                                *Violation
+	Nontrivial                       bool
+	Probes                           map[string]int
+	Faults                           map[string]int
+	Sig                              uint64 // extra signature material for distinctness
+	VirtNs                           int64
+	Steps                            int
+	Switches                         int
+	Truncated                        bool
+	Leaked                           int
+	Hash                             uint64
 	PorcOK, PorcIllegal, PorcUnknown int
 
 	post []func() // executed after the bubble has ended (real clock, e.g. porcupine)
@@ -149,19 +149,31 @@ func Execute(tt *testing.T, p *Prop, tape *Tape, verbose bool) *Run {
 }
 
 func runBubble(tt *testing.T, f func()) {
-	defer func() {
-		if e := recover(); e != nil {
-			msg := fmt.Sprint(e)
-			if strings.Contains(msg, "deadlock") && strings.Contains(msg, "bubble") {
-				leakedBubbles++
-				return
+	// synctest.Test calls t.FailNow (runtime.Goexit) when the bubble's T was
+	// marked failed — which the testing package does whenever the race detector
+	// reported something during the bubble. Running it on a helper goroutine
+	// keeps the worker alive; race reports are this harness' data (C17).
+	done := make(chan any, 1)
+	go func() {
+		var res any
+		defer func() {
+			if e := recover(); e != nil {
+				msg := fmt.Sprint(e)
+				if strings.Contains(msg, "deadlock") && strings.Contains(msg, "bubble") {
+					leakedBubbles++
+				} else {
+					res = e
+				}
 			}
-			panic(e)
-		}
+			done <- res
+		}()
+		synctest.Test(tt, func(t *testing.T) {
+			f()
+		})
 	}()
-	synctest.Test(tt, func(t *testing.T) {
-		f()
-	})
+	if e := <-done; e != nil {
+		panic(e)
+	}
 }
 
 // Shrink minimises a failing tape: the same violation signature (class and key) must persist.
